@@ -107,7 +107,8 @@ fn main() {
                 Tier::Quick => 150,
                 Tier::Thorough => 1500,
             }),
-        hang_s: 20,
+        // the sanitizer legs raise this: under Miri a single case takes seconds to minutes
+        hang_s: std::env::var("XVM_HANG_S").ok().and_then(|s| s.parse::<u64>().ok()).unwrap_or(20),
     };
     engine::install_panic_hook();
     let mon: Arc<dyn engine::Monitor> = Arc::from(mon);
